@@ -58,8 +58,11 @@ def rundir(tag):
     if not os.path.exists(v):
         # worker processes of a check (multiprocessing) use their parent's tables
         v = os.path.join(BUILD, "vocab", str(os.getppid()), "Vocab.tla")
-    if os.path.exists(v):
-        shutil.copy(v, d)
+    if not os.path.exists(v):
+        from . import vocab as _vocab           # extract the tables of the tree under test now
+        _vocab.get()
+        v = os.path.join(BUILD, "vocab", str(os.getpid()), "Vocab.tla")
+    shutil.copy(v, d)
     return d
 
 
